@@ -5,6 +5,7 @@
   identRe    : the pattern text of `utils._ident_re`
   traverseCaught / traverseCatchesTypeError : the exception names in `_traverse`'s except clause
   arraySliceClampsNegative : probed on the real `py_array_slice`
+  json1NegativeHash : does SQLiteBuilder.eval_json_path (JSON1 available) spell a negative index `[#-N]` (probed)
   sqliteNonzeroShape : 'plain' when JSON_NONZERO is `builder(expr), ' NOT IN (...)'` (no COALESCE) — the shape the model `jsonNonzero` mirrors
 
 Props/C29.lean proves `baseLits ⊆ sqliteNonzeroLits ⊆ baseLits ++ floatZeroLits` and `jsonPathRe = <the regex the scanner was written for>`
@@ -89,14 +90,17 @@ def probe_array_slice(repo):
     """'unclamped' (array[start:stop] as is), 'clamped' (a negative bound is taken as 0) or 'other' — probed on the real function"""
     import subprocess, sys, json
     code = ("import json\nfrom pony.orm.dbproviders import sqlite as s\n"
-            "print(json.dumps([s.py_array_slice('[1,2,3]', -2, 2), s.py_array_slice('[1,2,3]', 0, -1), s.py_array_slice('[1,2,3]', None, None)]))")
+            "b = object.__new__(s.SQLiteBuilder); b.json1_available = True\n"
+            "print(json.dumps([s.py_array_slice('[1,2,3]', -2, 2), s.py_array_slice('[1,2,3]', 0, -1), s.py_array_slice('[1,2,3]', None, None), b.eval_json_path(['a', -1, 0])]))")
     env = dict(os.environ, PYTHONPATH=repo)
     p = subprocess.run([sys.executable, '-c', code], env=env, stdout=subprocess.PIPE, stderr=subprocess.PIPE, text=True, timeout=120)
     if p.returncode != 0: raise ValueError('probe of py_array_slice failed: ' + p.stderr[-200:])
     got = json.loads(p.stdout.strip().splitlines()[-1])
-    if got == ['[2]', '[1,2]', '[1,2,3]']: return 'unclamped'
-    if got == ['[1,2]', '[]', '[1,2,3]']: return 'clamped'
-    return 'other'
+    j1 = {'$.a[-1][0]': 'plain', '$.a[#-1][0]': 'hash'}.get(got[3], 'other')
+    got = got[:3]
+    if got == ['[2]', '[1,2]', '[1,2,3]']: return 'unclamped', j1
+    if got == ['[1,2]', '[]', '[1,2,3]']: return 'clamped', j1
+    return 'other', j1
 
 
 def regenerate(repo, lean_dir):
@@ -111,9 +115,10 @@ def regenerate(repo, lean_dir):
         path_re, path_flags = module_regex(os.path.join(prov, 'sqlite.py'), 'json_path_re')
         ident_re, _ = module_regex(os.path.join(repo, 'pony', 'utils', 'utils.py'), '_ident_re')
         caught = traverse_caught(os.path.join(prov, 'sqlite.py'))
-        slice_kind = probe_array_slice(repo)
+        slice_kind, j1_neg = probe_array_slice(repo)
+        if j1_neg == 'other': raise ValueError('SQLiteBuilder.eval_json_path with JSON1 writes a negative index neither as [-N] nor as [#-N]')
         if slice_kind == 'other': raise ValueError('py_array_slice is neither array[start:stop] nor its clamped variant')
-        info = {'traverse_caught': caught, 'array_slice': slice_kind, 'sqlite': sq, 'mysql': my, 'oracle': orc, 'postgres': pg, 'sqlite_shape': sq_shape, 'json_path_re': path_re,
+        info = {'traverse_caught': caught, 'array_slice': slice_kind, 'json1_negative_index': j1_neg, 'sqlite': sq, 'mysql': my, 'oracle': orc, 'postgres': pg, 'sqlite_shape': sq_shape, 'json_path_re': path_re,
                 'json_path_re_flags': path_flags, 'ident_re': ident_re}
         def lst(l): return '[' + ', '.join(lean_str(x) for x in l) + ']'
         text = '\n'.join([
@@ -130,6 +135,7 @@ def regenerate(repo, lean_dir):
             'def traverseCaught : List String := ' + lst(caught),
             'def traverseCatchesTypeError : Bool := ' + ('true' if ('TypeError' in caught or 'Exception' in caught or 'BaseException' in caught) else 'false'),
             'def arraySliceClampsNegative : Bool := ' + ('true' if slice_kind == 'clamped' else 'false'),
+            'def json1NegativeHash : Bool := ' + ('true' if j1_neg == 'hash' else 'false'),
             'end PonyVerif.Gen.JsonLits', ''])
         ok, err = True, None
     except Exception as e:
